@@ -275,7 +275,8 @@ fn bus_scenario(out: &mut Out, multi: bool, cfgs: &[NetCfg], when: When, burst: 
 }
 
 fn hcu(da: u8, sa: Option<u8>) -> DriverCfg {
-    DriverCfg { da, sa, timeout: Some(250), vendor: "laixer".into(), product: "hcu".into() }
+    // every other unit is "silent": its 0 ms timeout has expired whenever the request arrives
+    DriverCfg { da, sa, timeout: Some(if da % 2 == 0 { 250 } else { 0 }), vendor: "laixer".into(), product: "hcu".into() }
 }
 
 fn other(rng: &mut Rng) -> DriverCfg {
